@@ -214,14 +214,35 @@ def rule_name1(A: Analysis, rep):
               "task_output_dir is used in %s (confirmed: %s)" % (sorted(by_fn), sorted(want_fns)))
     # every path to a version directory is built as Path(<root>, task_id.path, task_output_dir(task_id, version))
     def version_paths(fq):
+        """Component lists of the paths that name a version directory, however they are put together
+        (`Path(a, b, c)`, `a / b / c`, through a local for the common tail)."""
         fi_ = A.fn(fq)
+        STOP = ["task_id", "version", "staging_path", "ctx"]
+
+        def comps(e, depth=0):
+            if depth > 6:
+                return [norm(e)]
+            if isinstance(e, ast.Call) and norm(e.func) in ("pathlib.Path", "Path", "pathlib.PurePath") and e.args:
+                return [c_ for a_ in e.args for c_ in comps(a_, depth + 1)]
+            if isinstance(e, ast.BinOp) and isinstance(e.op, ast.Div):
+                return comps(e.left, depth + 1) + comps(e.right, depth + 1)
+            if isinstance(e, ast.Name) and e.id not in STOP:
+                v_ = A.single_def_value(fi_, e.id)
+                if v_ is not None and (isinstance(v_, ast.BinOp) or (isinstance(v_, ast.Call) and norm(v_.func) in ("pathlib.Path", "Path", "pathlib.PurePath"))):
+                    return comps(v_, depth + 1)
+            return [A.xtext(e, fi_, stop=STOP)]
         out = []
         for c in walk_local(fi_.node):
-            if isinstance(c, ast.Call) and norm(c.func) in ("pathlib.Path", "Path") and len(c.args) >= 2:
-                tx = [A.xtext(a, fi_, stop=["task_id", "version", "staging_path", "ctx"]) for a in c.args]
+            if (isinstance(c, ast.Call) and norm(c.func) in ("pathlib.Path", "Path") and len(c.args) >= 2) or (isinstance(c, ast.BinOp) and isinstance(c.op, ast.Div)):
+                par = getattr(c, "_parent", None)
+                if isinstance(par, ast.BinOp) and isinstance(par.op, ast.Div):
+                    continue   # only maximal `/` chains
+                tx = comps(c)
                 if any("task_output_dir(" in t for t in tx):
                     out.append((c, tx))
-        return out
+        # a path that is only the common tail of longer ones (`relative = Path(task.path, dirname)`) is not a path of its own
+        full = [(c, tx) for (c, tx) in out if not any(tx != ty and len(ty) > len(tx) and ty[-len(tx):] == tx for (_d, ty) in out)]
+        return full
     ap = version_paths("cli.archive.create_archive")
     rep.check(len(ap) == 1 and ap[0][1] == ["task_id.path", "f.task_output_dir(task_id, version)"], "NAME1", "archive member path", ap[0][0] if ap else None,
               "", "archive member paths are %s" % [t for _c, t in ap])
